@@ -2038,3 +2038,12 @@ func specIsEnvStringer(x any) bool { _, ok := x.(native.EnvStringer); return ok 
 //@   props X00 C09
 //@   panics allowed
 //@   callassert[C09] toString 0 !specIsStringer(k) && !specIsEnvStringer(k)
+
+// OpRange (C05): ranging over a value must not panic into the host. The typed
+// arms iterate Go slices and maps directly; the reflect arm reads Len and Index
+// of the operand - of a nil pointer to an array there is no such Value.
+//@ clause (*VM).run/case OpRange
+//@   props X00 C05
+//@   opt stable VM Function
+//@   panics allowed
+//@   callassert[C05] v.Len 0 kind != reflect.Pointer || v.IsValid()
